@@ -181,6 +181,27 @@ PLAN["C05"] = other(
     "all histories of those operations); the remaining operations are covered by bounded histories.",
     ["c05_histories"])
 
+PLAN["C08"] = other(
+    "Deductive: insertSpace on both tier classes and on textgrids proved equal, path by path, to the per-entry spec "
+    "taken from the property (unchanged / shifted by d / stretched / split / rejected; span + d; result well-formed). "
+    "Bounded: the same on dyadic grids, the inverse law insertSpace;eraseRegion on label-at-time functions, and "
+    "randomized decimals for the floating-point clause.",
+    "insertSpace opens exactly the requested gap for all tiers, points, durations and modes in real arithmetic "
+    "(proved); the inverse law and the floating-point clause are checked on the stated bounded domain (the rounding "
+    "clause is known to fail: KF10).", ["c08_insert_space"])
+PLAN["C09"] = other(
+    "Deductive: editTimestamps (both tier classes, textgrids) and appendTier proved equal to the property-derived specs "
+    "(shift, drop, clip, OutOfBounds iff error mode and out of the old span, hull span). Bounded: the same on grids "
+    "plus Textgrid.appendTextgrid with the onlyMatchingNames name policy and the +x/-x law.",
+    "Shifting and tier concatenation move every entry by exactly the stated amount (proved for all inputs); "
+    "appendTextgrid and the round-trip law on the stated bounded domain.", ["c09_shift_append"])
+PLAN["C11"]["bounded"] = ["c11_list_model"]
+PLAN["C11"]["level"] = "other"
+PLAN["C11"]["technique"] = MIXED
+PLAN["C11"]["note"] = PLAN["C11"]["note"] + "; " + OTHER_NOTE
+PLAN["C06"]["note"] = PLAN["C06"]["note"].replace("Textgrid.crop is covered through C12's contract when built",
+    "Textgrid.crop is proved for textgrids with 0..2 tiers (tier count enumerated, everything else symbolic)")
+
 NOT_CLAIMED = {}
 
 U = "praatio/utilities/utils.py"
